@@ -1,7 +1,7 @@
 SPECIFICATION Spec
 CONSTANTS
   Variant = "fixed"
-  Bases <- P_Bases
+  Bases <- PQ_Bases
   MaxFaults = 2
 INVARIANT BaseValid
 INVARIANT FaultInvalid
